@@ -595,7 +595,39 @@ func (e *Exec) doBuiltin(fr *Frame, ins ssa.Instruction, b *ssa.Builtin, c *ssa.
 		e.recordWrite(h, ""+e.sbase(dst.T)+"")
 		return Val{T: n, S: SInt, Ty: intT}
 	case "append":
-		return e.doAppend(fr, ins, c, args, st, g)
+		// "before:append@n" site hints (proof decomposition at the point where a collection grows)
+		site := e.siteName("append")
+		if fr.ctr != nil && fr.ctr.SiteHints != nil {
+			for key, hints := range fr.ctr.SiteHints {
+				if !strings.HasPrefix(key, "before:") || site != key[len("before:"):] {
+					continue
+				}
+				henv := e.envForFunc(fr, st, fr.entryState, nil)
+				henv.block = ins.Block()
+				for _, hc := range hints {
+					t := e.evalBool(hc, henv)
+					e.Out.AddObl(&Obligation{Name: fmt.Sprintf("%s/hint:%s:%s", FuncKey(fr.fn), key, hc.Label), Func: FuncKey(fr.fn), Kind: "hint", Label: hc.Label, Text: hc.Text, Src: hc.Src,
+						Formula: Imp(g, t), Inputs: e.obsInputs(fr), Obs: e.lastObs})
+					e.assume(g, t)
+				}
+			}
+		}
+		appSite := fmt.Sprintf("append@%d", e.siteCount["append"])
+		res := e.doAppend(fr, ins, c, args, st, g)
+		if fr.ctr != nil && fr.ctr.SiteHints != nil {
+			if hints, ok := fr.ctr.SiteHints[appSite]; ok {
+				henv := e.envForFunc(fr, st, fr.entryState, nil)
+				henv.result = &res
+				henv.block = ins.Block()
+				for _, hc := range hints {
+					t := e.evalBool(hc, henv)
+					e.Out.AddObl(&Obligation{Name: fmt.Sprintf("%s/hint:%s:%s", FuncKey(fr.fn), appSite, hc.Label), Func: FuncKey(fr.fn), Kind: "hint", Label: hc.Label, Text: hc.Text, Src: hc.Src,
+						Formula: Imp(g, t), Inputs: e.obsInputs(fr), Obs: e.lastObs})
+					e.assume(g, t)
+				}
+			}
+		}
+		return res
 	case "delete":
 		m, k := args[0], args[1]
 		mt := c.Args[0].Type().Underlying().(*types.Map)
